@@ -76,6 +76,7 @@ class C12Run(E2Run):
         SoftwareManager.receive_payload_from_session_manager = recv
         self._unpatch.append((SoftwareManager, "receive_payload_from_session_manager", orig_recv))
         self.calls["ping"] = self.call_ping
+        self.calls["api_enable"] = self.call_api_enable
         self.observe("after build", cause="build")
 
     def finish(self):
@@ -233,6 +234,18 @@ class C12Run(E2Run):
         self.observe(f"after ping {src}->{dst}", cause="other")
         return ok
 
+    def call_api_enable(self, node: str, port: int):
+        """Somebody other than the node's own power handling asks an interface to come up (public NetworkInterface.enable,
+        as cabling, Router.enable_port or an episode set-up do)."""
+        n = self.node(node)
+        nic = n.network_interface.get(port)
+        if nic is not None:
+            nic.enable()
+            self.probe("c12_interface_enable_requested_via_api")
+            if n.operating_state.name != "ON":
+                self.probe("c12_interface_enable_while_not_on")
+        self.observe(f"after interface enable() on {node} port {port}", cause="other")
+
     # ------------------------------------------------------------------------------------------------------------
     def other_request(self, r, node) -> List:
         hn = node.config.hostname
@@ -248,6 +261,18 @@ class C12Run(E2Run):
         if hasattr(node, "acl"):
             opts.append(base + ["acl", "add_rule", "DENY", "ALL", "ALL", "NONE", "ALL", "ALL", "NONE", "ALL", 3])
             opts.append(base + ["acl", "remove_rule", 3])
+        if node.__class__.__name__ == "Firewall":
+            for zone in ("internal", "dmz", "external"):
+                for direction in ("inbound", "outbound"):
+                    opts.append(base + [zone, direction, "acl", "add_rule", "DENY", "ALL", "ALL", "NONE", "ALL", "ALL", "NONE", "ALL", 4])
+                    opts.append(base + [zone, direction, "acl", "remove_rule", 4])
+        if r.random() < 0.4:
+            # any parameterless operation anywhere in the node's live request tree
+            from dst.props.c05 import NO_PARAM_LEAVES
+
+            routes = [rt for rt in node._request_manager.get_request_types_recursively() if rt and rt[-1] in NO_PARAM_LEAVES and rt not in (["startup"], ["shutdown"], ["reset"])]  # (power requests: the F1 branch)
+            if routes:
+                return base + r.choice(routes)
         return r.choice(opts)
 
     def workload(self):
@@ -268,6 +293,10 @@ class C12Run(E2Run):
                 if r.random() < 0.6 and node in hosts:
                     b = node if a is not node else b
                 self.emit(["call", "ping", {"src": a.config.hostname, "dst": b.config.hostname, "dst_ip": str(b.network_interface[1].ip_address)}])
+            elif x < 0.78:
+                non_on = [n for n in self.nodes if n.operating_state.name != "ON"]
+                tgt = r.choice(non_on) if non_on and r.random() < 0.8 else node
+                self.emit(["call", "api_enable", {"node": tgt.config.hostname, "port": r.choice(sorted(tgt.network_interface))}])
             else:
                 non_on = [n for n in self.nodes if n.operating_state.name != "ON"]
                 tgt = r.choice(non_on) if non_on and r.random() < 0.7 else node
